@@ -90,7 +90,33 @@ class Impl:
             maximum_payload_kg=1000, number_of_engines=2, speeds=None, lto_performance=None,
             flight_performance=dict(cols=['fl', 'mass', 'tas', 'rocd', 'fuel_flow'], data=[list(map(float, r)) for r in rows]),
         )
+        # every second table goes through the public *file* loader, always at the same path (rewritten per table): a model
+        # file is what `make_performance_model` produces and `PerformanceModel.load` is how it is read back (seed C06_4:
+        # loader memoised by path). TOML floats are written with repr and parsed exactly, so the values are bit-identical.
+        self.n_loads = getattr(self, 'n_loads', 0) + 1
         try:
+            if self.n_loads % 2 == 0:
+                import tempfile
+
+                import tomli_w
+
+                if getattr(self, 'file_dir', None) is None:
+                    self.file_dir = tempfile.mkdtemp(prefix='c06_model_')
+                path = Path(self.file_dir) / 'model.toml'
+                # TOML has no null: the file variant carries the speeds / LTO sections of the shipped sample model instead
+                # (neither enters `evaluate`)
+                if getattr(self, 'sample', None) is None:
+                    import tomllib
+
+                    from harness.common import REPO
+
+                    with open(REPO / 'src' / 'AEIC' / 'data' / 'performance' / 'sample_performance_model.toml', 'rb') as f:
+                        self.sample = tomllib.load(f)
+                fdata = {k: v for k, v in self.sample.items() if k not in ('flight_performance', 'APU_name')}
+                fdata.update({k: v for k, v in data.items() if v is not None})
+                with open(path, 'wb') as fp:
+                    tomli_w.dump(fdata, fp)
+                return 'ok', self.PerformanceModel.load(path)
             return 'ok', self.PerformanceModel.from_data(data)
         except ValueError as e:  # pydantic ValidationError is a ValueError
             return 'refused', type(e).__name__
@@ -880,6 +906,10 @@ class Runner:
         if self.tmp:
             shutil.rmtree(self.tmp, ignore_errors=True)
             self.tmp = None
+        fd = getattr(self.impl, 'file_dir', None)
+        if fd:
+            shutil.rmtree(fd, ignore_errors=True)
+            self.impl.file_dir = None
 
 
 def same_result(a, b):
